@@ -124,8 +124,8 @@ Lemma seq_stripped_inv C d q ign ru CS sio : seq_stripped C d q ign ru = Ok (CS,
   ∃ R bb, strip_blackboxes C ign = Ok R ∧
     (∀ b bb', c_bbs C !! b = Some bb' → bb_in bb' = bb_in bb ∧ bb_out bb' = bb_out bb) ∧ d ∈ bb_in bb ∧ q ∈ bb_out bb ∧
     let insts := elements (dom (c_bbs C)) in
-    let g1 := remove_g (c_g R) (p ← elements (bb_in bb ∖ {[d]}); (λ b, pre b p) <$> insts) in
-    let g2 := remove_g g1 (p ← elements (bb_out bb ∖ {[q]}); (λ b, pre b p) <$> insts) in
+    let g1 := remove_g (c_g R) (p ← elements (bb_in bb ∖ {[d]} ∖ list_to_set ign); (λ b, pre b p) <$> insts) in
+    let g2 := remove_g g1 (p ← elements (bb_out bb ∖ {[q]} ∖ list_to_set ign); (λ b, pre b p) <$> insts) in
     let qs : gset string := list_to_set ((λ b, pre b q) <$> insts) in
     CS = with_g R (remove_g g2 (if ru then elements (filter (λ i, fanout g2 i = ∅ ∧ i ∉ qs ∧ is_output g2 i = false) (inputs g2)) else [])) ∧
     sio = (λ b, (pre b d, pre b q)) <$> insts.
@@ -142,12 +142,13 @@ Proof.
 Qed.
 
 (* no pin other than D / Q survives the two pin removals (whatever is ignored) *)
-Lemma no_pin_after_removal (h : circuit) (bb : bbdef) (insts U : list string) d q b p :
-  b ∈ insts → p ∈ bb_pinset bb → p ≠ d → p ≠ q →
-  pre b p ∉ dom (remove_g (remove_g (remove_g h (p ← elements (bb_in bb ∖ {[d]}); (λ b, pre b p) <$> insts))
-                                    (p ← elements (bb_out bb ∖ {[q]}); (λ b, pre b p) <$> insts)) U).
+Lemma no_pin_after_removal (h : circuit) (bb : bbdef) (insts U ign : list string) d q b p :
+  b ∈ insts → p ∈ bb_pinset bb → p ≠ d → p ≠ q → p ∉ ign →
+  pre b p ∉ dom (remove_g (remove_g (remove_g h (p ← elements (bb_in bb ∖ {[d]} ∖ list_to_set ign); (λ b, pre b p) <$> insts))
+                                    (p ← elements (bb_out bb ∖ {[q]} ∖ list_to_set ign); (λ b, pre b p) <$> insts)) U).
 Proof.
-  intros Hb Hp Hpd Hpq Hin. apply dom_remove_g in Hin as [Hin _]. apply dom_remove_g in Hin as [Hin HnB]. apply dom_remove_g in Hin as [_ HnA].
+  intros Hb Hp Hpd Hpq Hpi Hin. apply dom_remove_g in Hin as [Hin _]. apply dom_remove_g in Hin as [Hin HnB]. apply dom_remove_g in Hin as [_ HnA].
+  assert (p ∉ (list_to_set ign : gset string)) by by rewrite elem_of_list_to_set.
   apply elem_of_union in Hp as [Hp|Hp].
   - apply HnA. apply elem_of_list_to_set, elem_of_list_bind. exists p.
     split; [apply elem_of_list_fmap; by exists b|apply elem_of_elements; set_solver].
@@ -165,13 +166,13 @@ Section chain.
   Let pruned := remove_g g (elements I).
   Let h := rename ρ (expose_info <$> pruned).
   Let insts := elements (dom (c_bbs C)).
-  Let A := p ← elements (bb_in bb ∖ {[d]}); (λ b, pre b p) <$> insts.
-  Let B := p ← elements (bb_out bb ∖ {[q]}); (λ b, pre b p) <$> insts.
+  Let A := p ← elements (bb_in bb ∖ {[d]} ∖ list_to_set ign); (λ b, pre b p) <$> insts.
+  Let B := p ← elements (bb_out bb ∖ {[q]} ∖ list_to_set ign); (λ b, pre b p) <$> insts.
   Let g1 := remove_g h A.
   Let g2 := remove_g g1 B.
   Let g3 := remove_g g2 U.
   Context (HU : ∀ u, u ∈ U → fanout g2 u = ∅).
-  Context (Hcl : closed g) (Hlint : lint_clean C) (Hnames : flop_names_ok C) (Hwire : flop_wiring_ok C q).
+  Context (Hcl : closed g) (Hlint : lint_clean C) (Hnames : flop_names_ok C ign) (Hwire : flop_wiring_ok C q).
   Context (Hsame : ∀ b bb', c_bbs C !! b = Some bb' → bb_in bb' = bb_in bb ∧ bb_out bb' = bb_out bb).
   Context (Hd : d ∈ bb_in bb) (Hq : q ∈ bb_out bb) (Hdi : d ∉ ign) (Hqi : q ∉ ign).
 
@@ -180,7 +181,7 @@ Section chain.
   Proof. intros [bb' Hb]%elem_of_dom. exists bb'. split; [done|]. destruct (Hsame b bb' Hb) as [E1 E2]. unfold bb_pinset. by rewrite E1, E2. Qed.
   Lemma nm_dot b : b ∈ dom (c_bbs C) → str_has_dot b = false.
   Proof. intros [bb' Hb]%elem_of_dom. destruct Hnames as [H _]. by destruct (H b bb' Hb). Qed.
-  Lemma nm_pin b p : b ∈ dom (c_bbs C) → p ∈ bb_pinset bb → str_has_dot p = false ∧ pre b p ∉ dom g.
+  Lemma nm_pin b p : b ∈ dom (c_bbs C) → p ∈ bb_pinset bb → str_has_dot p = false ∧ (p ∉ ign → pre b p ∉ dom g).
   Proof.
     intros (bb' & Hb & E)%reg_bb Hp. destruct Hnames as [H _]. destruct (H b bb' Hb) as (_ & H2 & _). apply H2. by rewrite E.
   Qed.
@@ -230,35 +231,36 @@ Section chain.
   Qed.
 
   (* --- the renaming --- *)
-  Lemma kept_form x : x ∈ kept → ∃ b p, b ∈ dom (c_bbs C) ∧ p ∈ bb_pinset bb ∧ x = Api.pin b p ∧ ρ x = pre b p.
+  Lemma kept_form x : x ∈ kept → ∃ b p, b ∈ dom (c_bbs C) ∧ p ∈ bb_pinset bb ∧ x = Api.pin b p ∧ ρ x = pre b p ∧ p ∉ ign.
   Proof.
-    intros Hx. assert (x ∈ bb_pins g) as Hp by (unfold kept, kept_pins in Hx; set_solver).
+    intros Hx. assert (x ∈ bb_pins g ∧ x ∉ ignored_pins g ign) as [Hp Hni] by (unfold kept, kept_pins in Hx; by apply elem_of_difference in Hx).
     destruct (nm_reg x Hp) as (b & p & Hb & Hpp & ->). exists b, p. split; [done|]. split; [done|]. split; [done|].
+    split; [|intros Hi; apply Hni; unfold ignored_pins; apply elem_of_filter; split; [|done]; by rewrite last_seg_pin by by apply (nm_pin b p)].
     unfold ρ, pin_rho. rewrite bool_decide_eq_true_2 by done. apply undot_pin; [by apply nm_dot|by apply (nm_pin b p)].
   Qed.
   Lemma rho_notkept x : x ∉ kept → ρ x = x.
   Proof. intros Hx. unfold ρ, pin_rho. by rewrite bool_decide_eq_false_2. Qed.
-  Lemma rho_pre x b p : x ∈ dom g → b ∈ dom (c_bbs C) → p ∈ bb_pinset bb → ρ x = pre b p → x = Api.pin b p.
+  Lemma rho_pre x b p : x ∈ dom g → b ∈ dom (c_bbs C) → p ∈ bb_pinset bb → p ∉ ign → ρ x = pre b p → x = Api.pin b p.
   Proof.
-    intros Hx Hb Hp E. destruct (decide (x ∈ kept)) as [Hk|Hk].
-    - destruct (kept_form x Hk) as (b' & p' & Hb' & Hp' & -> & E'). rewrite E' in E.
+    intros Hx Hb Hp Hpi E. destruct (decide (x ∈ kept)) as [Hk|Hk].
+    - destruct (kept_form x Hk) as (b' & p' & Hb' & Hp' & -> & E' & _). rewrite E' in E.
       by destruct (nm_flat _ _ _ _ Hb' Hb Hp' Hp E) as [-> ->].
     - rewrite rho_notkept in E by done. subst x. exfalso. by apply (nm_pin b p Hb Hp).
   Qed.
   Lemma rho_inj : inj_on ρ (dom g).
   Proof.
     intros x y Hx Hy E. destruct (decide (x ∈ kept)) as [Hk|Hk].
-    - destruct (kept_form x Hk) as (b & p & Hb & Hp & -> & E'). rewrite E' in E. symmetry. by eapply rho_pre.
+    - destruct (kept_form x Hk) as (b & p & Hb & Hp & -> & E' & Hpi). rewrite E' in E. symmetry. by eapply rho_pre.
     - rewrite (rho_notkept x) in E by done. destruct (decide (y ∈ kept)) as [Hk'|Hk']; [|by rewrite (rho_notkept y) in E].
-      destruct (kept_form y Hk') as (b & p & Hb & Hp & -> & E'). rewrite E' in E. subst x. exfalso. by apply (nm_pin b p Hb Hp).
+      destruct (kept_form y Hk') as (b & p & Hb & Hp & -> & E' & Hpi). rewrite E' in E. subst x. exfalso. by apply (nm_pin b p Hb Hp).
   Qed.
   Lemma pin_kept b p : b ∈ dom (c_bbs C) → p ∈ bb_pinset bb → p ∉ ign → Api.pin b p ∈ kept ∧ ρ (Api.pin b p) = pre b p.
   Proof.
     intros Hb Hp Hi. assert (Api.pin b p ∈ kept) as Hk.
     { unfold kept, kept_pins. apply elem_of_difference. split; [by apply pin_is_pin|].
       unfold ignored_pins. rewrite elem_of_filter. intros [Hl _]. rewrite last_seg_pin in Hl by by apply (nm_pin b p). done. }
-    split; [done|]. destruct (kept_form _ Hk) as (b' & p' & Hb' & Hp' & E & E'). rewrite E'.
-    destruct (kept_form _ Hk) as (b2 & p2 & _ & _ & E2 & E2'). rewrite E2' in E'.
+    split; [done|]. destruct (kept_form _ Hk) as (b' & p' & Hb' & Hp' & E & E' & _). rewrite E'.
+    destruct (kept_form _ Hk) as (b2 & p2 & _ & _ & E2 & E2' & _). rewrite E2' in E'.
     unfold ρ, pin_rho in E2'. rewrite bool_decide_eq_true_2 in E2' by done. rewrite undot_pin in E2'; [|by apply nm_dot|by apply (nm_pin b p)].
     congruence.
   Qed.
@@ -295,19 +297,21 @@ Section chain.
     intros Hk Hf. apply h_lookup in Hk as (n & i & -> & Hn & _ & ->). cbn [ren_info n_fi] in Hf. rewrite n_fi_expose in Hf.
     apply elem_of_map in Hf as (f & -> & Hf). exists n, i, f. split; [done|]. split; [done|]. split; [|done]. eapply Hcl; eauto.
   Qed.
-  Lemma in_A x : x ∈ (list_to_set A : gset string) → ∃ b p, b ∈ dom (c_bbs C) ∧ p ∈ bb_in bb ∧ p ≠ d ∧ x = pre b p.
+  Lemma in_A x : x ∈ (list_to_set A : gset string) → ∃ b p, b ∈ dom (c_bbs C) ∧ p ∈ bb_in bb ∧ p ≠ d ∧ p ∉ ign ∧ x = pre b p.
   Proof.
     rewrite elem_of_list_to_set. unfold A. intros (p & Hx & Hp%elem_of_elements)%elem_of_list_bind.
-    apply elem_of_list_fmap in Hx as (b & -> & Hb%elem_of_elements). exists b, p. set_solver.
+    apply elem_of_list_fmap in Hx as (b & -> & Hb%elem_of_elements). exists b, p.
+    apply elem_of_difference in Hp as [[Hp Hne]%elem_of_difference Hpi]. rewrite elem_of_list_to_set in Hpi. set_solver.
   Qed.
-  Lemma in_B x : x ∈ (list_to_set B : gset string) → ∃ b p, b ∈ dom (c_bbs C) ∧ p ∈ bb_out bb ∧ p ≠ q ∧ x = pre b p.
+  Lemma in_B x : x ∈ (list_to_set B : gset string) → ∃ b p, b ∈ dom (c_bbs C) ∧ p ∈ bb_out bb ∧ p ≠ q ∧ p ∉ ign ∧ x = pre b p.
   Proof.
     rewrite elem_of_list_to_set. unfold B. intros (p & Hx & Hp%elem_of_elements)%elem_of_list_bind.
-    apply elem_of_list_fmap in Hx as (b & -> & Hb%elem_of_elements). exists b, p. set_solver.
+    apply elem_of_list_fmap in Hx as (b & -> & Hb%elem_of_elements). exists b, p.
+    apply elem_of_difference in Hp as [[Hp Hne]%elem_of_difference Hpi]. rewrite elem_of_list_to_set in Hpi. set_solver.
   Qed.
   Lemma read_not_A n i f : g !! n = Some i → f ∈ n_fi i → f ∈ dom g → ρ f ∉ (list_to_set A : gset string).
   Proof.
-    intros Hn Hf Hfd (b & p & Hb & Hp & _ & E)%in_A.
+    intros Hn Hf Hfd (b & p & Hb & Hp & _ & Hpi & E)%in_A.
     assert (p ∈ bb_pinset bb) as Hpp by (unfold bb_pinset; set_solver).
     apply rho_pre in E; [|done..]. subst f. pose proof (pin_ty_in b p Hb Hp) as Ht.
     destruct (wire_q n i _ Hn Hf (pin_is_pin b p Hb Hpp)) as (b' & Hb' & E'). rewrite E' in Ht.
@@ -315,7 +319,7 @@ Section chain.
   Qed.
   Lemma read_not_B n i f : g !! n = Some i → f ∈ n_fi i → f ∈ dom g → ρ f ∉ (list_to_set B : gset string).
   Proof.
-    intros Hn Hf Hfd (b & p & Hb & Hp & Hne & E)%in_B.
+    intros Hn Hf Hfd (b & p & Hb & Hp & Hne & Hpi & E)%in_B.
     assert (p ∈ bb_pinset bb) as Hpp by (unfold bb_pinset; set_solver).
     pose proof E as E0. apply rho_pre in E; [|done..]. subst f.
     destruct (wire_q n i _ Hn Hf (pin_is_pin b p Hb Hpp)) as (b' & Hb' & E').
@@ -391,9 +395,9 @@ Section chain.
       by rewrite lookup_fmap, Hp. }
     assert (Hod : o ∈ dom g) by (apply elem_of_dom; eauto).
     assert (HoA : o ∉ (list_to_set A : gset string)).
-    { intros (b & p & Hb & Hp' & _ & E)%in_A. subst o. destruct (nm_pin b p Hb) as [_ Hn]; [apply elem_of_union; by left|]. by apply Hn. }
+    { intros (b & p & Hb & Hp' & _ & Hpi & E)%in_A. subst o. destruct (nm_pin b p Hb) as [_ Hn]; [apply elem_of_union; by left|]. by apply Hn. }
     assert (HoB : o ∉ (list_to_set B : gset string)).
-    { intros (b & p & Hb & Hp' & _ & E)%in_B. subst o. destruct (nm_pin b p Hb) as [_ Hn]; [apply elem_of_union; by right|]. by apply Hn. }
+    { intros (b & p & Hb & Hp' & _ & Hpi & E)%in_B. subst o. destruct (nm_pin b p Hb) as [_ Hn]; [apply elem_of_union; by right|]. by apply Hn. }
     assert (H1 : g1 !! o = Some (ren_info ρ (expose_info i))) by (unfold g1; by rewrite (remove_kept_lookup h A Hdis1)).
     assert (H2 : g2 !! o = Some (ren_info ρ (expose_info i))) by (unfold g2; by rewrite (remove_kept_lookup g1 B Hdis2)).
     assert (Hout : n_out (ren_info ρ (expose_info i)) = true) by (cbn [ren_info n_out]; by apply n_out_expose).
@@ -431,7 +435,7 @@ End chain.
 (* ---------- S2b: the stripped circuit's run is the flop circuit's run read through the pin renaming ---------- *)
 Theorem stripped_is_flop_run C d q ign ru CS sio st ins t n :
   seq_stripped C d q ign ru = Ok (CS, sio) → lint_clean C → closed (c_g C) → acyclic (c_g C) → closed (c_g CS) → acyclic (c_g CS) →
-  flop_names_ok C → flop_wiring_ok C q → d ∉ ign → q ∉ ign → (∀ kv, kv ∈ sio → kv.1 ∈ dom (c_g CS)) →
+  flop_names_ok C ign → flop_wiring_ok C q → d ∉ ign → q ∉ ign → (∀ kv, kv ∈ sio → kv.1 ∈ dom (c_g CS)) →
   let ρ := pin_rho (kept_pins (c_g C) ign) in
   n ∈ dom (c_g C) → ρ n ∈ dom (c_g CS) →
   flop_run C d q t (st ∘ ρ) (λ t, ins t ∘ ρ) n = run (c_g CS) sio t st ins (ρ n).
@@ -451,13 +455,14 @@ Proof. unfold io_of. intros [(i & Hi & _)%elem_of_inputs|(i & Hi & _)%elem_of_ou
 
 Theorem seq_flop_correct C n d q ign afo iv ru prefix CS sio :
   seq_stripped C d q ign ru = Ok (CS, sio) →
-  lint_clean C → closed (c_g C) → acyclic (c_g C) → flop_names_ok C → flop_wiring_ok C q → d ∉ ign → q ∉ ign →
+  lint_clean C → closed (c_g C) → acyclic (c_g C) → flop_names_ok C ign → flop_wiring_ok C q → d ∉ ign → q ∉ ign →
   lint_clean CS → c_bbs CS = ∅ → closed (c_g CS) → acyclic (c_g CS) → plain (c_g CS) → valid_names (c_g CS) → free_are_inputs (c_g CS) →
   1 ≤ n → sio_ok (c_g CS) sio → unroll_names_ok (c_g CS) n sio prefix → iv_ok C iv → iv_addable iv →
   let ρ := pin_rho (kept_pins (c_g C) ign) in
   ∃ U m, sequential_unroll C n d q ign afo iv ru prefix = Ok (U, m) ∧ dom m = io_of (c_g CS) ∧
     (∀ b, b ∈ dom (c_bbs C) → ρ (Api.pin b d) = pre b d ∧ ρ (Api.pin b q) = pre b q ∧ pre b d ∈ dom m ∧ pre b q ∈ dom m) ∧
-    (∀ b bb p, c_bbs C !! b = Some bb → p ∈ bb_pinset bb → p ≠ d → p ≠ q → pre b p ∉ dom (c_g CS) ∧ pre b p ∉ dom m) ∧
+    (∀ b bb p, c_bbs C !! b = Some bb → p ∈ bb_pinset bb → p ≠ d → p ≠ q → p ∉ ign → pre b p ∉ dom (c_g CS) ∧ pre b p ∉ dom m) ∧
+    (∀ k, k ∈ dom (c_g CS) → ∃ x, x ∈ dom (c_g C) ∧ x ∉ ignored_pins (c_g C) ign ∧ k = ρ x) ∧
     (∀ o, o ∈ outputs (c_g C) → o ∉ bb_pins (c_g C) → ρ o = o ∧ o ∈ outputs (c_g CS) ∧ o ∈ dom m) ∧
     ∀ w, consistent (c_g U) w →
       let st := λ v, w (io_name (ρ v) prefix 0) in
@@ -471,18 +476,23 @@ Proof.
   assert (Hk : ∀ kv, kv ∈ sio → kv.1 ∈ dom (c_g CS) ∧ kv.1 ∈ io_of (c_g CS) ∧ kv.2 ∈ io_of (c_g CS)).
   { intros kv Hkv. destruct Hsio as (Hs1 & _). rewrite Forall_forall in Hs1. destruct (Hs1 kv Hkv) as [H1 H2].
     assert (kv.1 ∈ io_of (c_g CS)) by (apply elem_of_union; by right). split; [by apply io_of_dom|]. split; [done|]. apply elem_of_union; by left. }
-  split; [|split; [|split]].
+  split; [|split; [|split; [|split]]].
   - intros b Hb. destruct (seq_stripped_inv _ _ _ _ _ _ _ Hs) as (R & bb & HR & Hsame & Hd & Hq & HCS & Esio). cbv zeta in HCS.
     assert ((pre b d, pre b q) ∈ sio) as Hin by (rewrite Esio; apply elem_of_list_fmap; exists b; split; [done|by apply elem_of_elements]).
     destruct (Hk _ Hin) as (_ & H1 & H2). rewrite Hdom. simpl in H1, H2.
     assert (ρ (Api.pin b d) = pre b d ∧ ρ (Api.pin b q) = pre b q) as [E1 E2]; [|done].
-    eapply (chain_dq C d q ign bb []); try done. intros u Hu. by apply elem_of_nil in Hu.
-  - intros b bb' p Hb Hp Hpd Hpq.
+    eapply (chain_dq C d q ign bb); try done.
+  - intros b bb' p Hb Hp Hpd Hpq Hpi.
     assert (pre b p ∉ dom (c_g CS)) as Hno; [|split; [done|rewrite Hdom; by intros Hin%io_of_dom]].
     destruct (seq_stripped_inv _ _ _ _ _ _ _ Hs) as (R & bb & HR & Hsame & Hd & Hq & HCS & Esio). cbv zeta in HCS.
     apply strip_blackboxes_inv in HR as (_ & _ & ->). cbn [c_g] in HCS. subst CS. cbn [c_g with_g].
     apply (no_pin_after_removal _ bb); try done; [apply elem_of_elements, elem_of_dom; eauto|].
     destruct (Hsame b bb' Hb) as [E1 E2]. unfold bb_pinset in *. by rewrite <- E1, <- E2.
+  - intros k Hk'.
+    destruct (seq_stripped_inv _ _ _ _ _ _ _ Hs) as (R & bb & HR & Hsame & Hd & Hq & HCS & Esio). cbv zeta in HCS.
+    apply strip_blackboxes_inv in HR as (_ & _ & ->). cbn [c_g] in HCS. subst CS. cbn [c_g with_g] in Hk'.
+    eapply (chain_dom C d q ign bb); try done.
+    intros u Hu. destruct ru; [|by apply elem_of_nil in Hu]. apply elem_of_elements, elem_of_filter in Hu as [[Hu _] _]. exact Hu.
   - intros o Ho Hnp.
     assert (ρ o = o ∧ o ∈ outputs (c_g CS)) as [E1 E2]; [|split; [done|split; [done|rewrite Hdom; apply elem_of_union; by right]]].
     destruct (seq_stripped_inv _ _ _ _ _ _ _ Hs) as (R & bb & HR & Hsame & Hd & Hq & HCS & Esio). cbv zeta in HCS.
@@ -635,14 +645,16 @@ Qed.
 (* ---------- C09, sequential clause, assembled ---------- *)
 Theorem seq_flop_full C n d q ign afo iv ru prefix CS sio :
   seq_stripped C d q ign ru = Ok (CS, sio) →
-  lint_clean C → closed (c_g C) → acyclic (c_g C) → flop_names_ok C → flop_wiring_ok C q → d ∉ ign → q ∉ ign →
+  lint_clean C → closed (c_g C) → acyclic (c_g C) → flop_names_ok C ign → flop_wiring_ok C q → d ∉ ign → q ∉ ign →
   lint_clean CS → c_bbs CS = ∅ → closed (c_g CS) → acyclic (c_g CS) → plain (c_g CS) → valid_names (c_g CS) → free_are_inputs (c_g CS) →
   1 ≤ n → sio_ok (c_g CS) sio → unroll_names_ok (c_g CS) n sio prefix → iv_ok C iv → iv_addable iv → iv_nodup iv →
   let ρ := pin_rho (kept_pins (c_g C) ign) in
   ∃ U m, sequential_unroll C n d q ign afo iv ru prefix = Ok (U, m) ∧ dom m = io_of (c_g CS) ∧
     (* io map: D and Q pin of every flop (under their flattened names), no other pin, ignored or not *)
     (∀ b, b ∈ dom (c_bbs C) → ρ (Api.pin b d) = pre b d ∧ ρ (Api.pin b q) = pre b q ∧ pre b d ∈ dom m ∧ pre b q ∈ dom m) ∧
-    (∀ b bb p, c_bbs C !! b = Some bb → p ∈ bb_pinset bb → p ≠ d → p ≠ q → pre b p ∉ dom (c_g CS) ∧ pre b p ∉ dom m) ∧
+    (∀ b bb p, c_bbs C !! b = Some bb → p ∈ bb_pinset bb → p ≠ d → p ≠ q → p ∉ ign → pre b p ∉ dom (c_g CS) ∧ pre b p ∉ dom m) ∧
+    (∀ k, k ∈ dom (c_g CS) → ∃ x, x ∈ dom (c_g C) ∧ x ∉ ignored_pins (c_g C) ign ∧ k = ρ x) ∧
+    (* (the two lines above: no kept non-D/Q pin survives, and every node of the stripped circuit stems from a node that is not an ignored pin) *)
     (* every primary output of the flop circuit is an io of the stripped circuit under its own name *)
     (∀ o, o ∈ outputs (c_g C) → o ∉ bb_pins (c_g C) → ρ o = o ∧ o ∈ outputs (c_g CS) ∧ o ∈ dom m) ∧
     (* cycle-accurate simulation of the flop circuit: state = Q pins, next state = D pins *)
@@ -662,9 +674,9 @@ Theorem seq_flop_full C n d q ign afo iv ru prefix CS sio :
 Proof.
   intros Hs Hl Hcl Hac Hnm Hw Hdi Hqi Hl3 Hb3 Hcl3 Hac3 Hpl Hvn Hfr Hn Hsio Hun Hiv Hadd Hivn ρ.
   destruct (seq_flop_correct C n d q ign afo iv ru prefix CS sio Hs Hl Hcl Hac Hnm Hw Hdi Hqi Hl3 Hb3 Hcl3 Hac3 Hpl Hvn Hfr Hn Hsio Hun Hiv Hadd)
-    as (U & m & HU & Hdom & Hdq & Hnop & Hpo & Hsim).
+    as (U & m & HU & Hdom & Hdq & Hnop & Hnodes & Hpo & Hsim).
   destruct (seq_marks C n d q ign afo iv ru prefix U m CS sio Hs (lint_clean_inputs_undriven9 CS Hl3) Hsio Hun Hiv Hivn Hn HU) as [Hout Hty].
-  exists U, m. do 6 (split; [done|]).
+  exists U, m. do 7 (split; [done|]).
   assert (Hty' : ∀ b, b ∈ dom (c_bbs C) → ty (c_g U) (io_name (pre b q) prefix 0) = Some (default Input (init_of iv b))) by (intros b Hb; by apply Hty).
   split; [done|]. split; [|split].
   - intros w Hcw b Hb. specialize (Hty' b Hb). apply ty_dom in Hty' as (j & Hj & Ht). specialize (Hcw _ _ Hj). unfold node_ok, is_free in Hcw.
